@@ -72,6 +72,13 @@ class Ctx:
         self.known.append(text)
 
     def finish(self, level="proof"):
+        pend = getattr(self, "_pending_obligation", None)
+        if pend is not None:
+            self._pending_obligation = None
+            if not any(found for _, _, found in self.violations):
+                self.violation(pend[0], pend[1], found_input=False)
+            else:
+                self.notes.append("also: " + pend[0][:300])
         wall = time.time() - self.t0
         cov = dict(self.coverage)
         cov.update(self.proof)
@@ -123,12 +130,15 @@ def load_known(pid):
 # stage 1: prove
 
 def extract(ctx):
-    """translator T: regenerate lean/Mimium/Gen/*.lean from /repo's current sources"""
+    """translator T: regenerate lean/Mimium/Gen/*.lean from /repo's current sources.
+    A source shape the translator does not recognise is a broken obligation; the check then goes on with the last
+    generated data and searches for a concrete failing input; if none is found the obligation itself is reported
+    (`no-failing-input-found`) when the check finishes."""
     p = run([sys.executable, os.path.join(VERIF, "tools", "extract.py")], cwd=VERIF)
     if p.returncode != 0:
-        ctx.violation("translator could not re-extract model data from /repo (source shape changed): " + p.stderr[-2000:],
-                      {"stage": "extract", "obligation": "tools/extract.py", "stderr": p.stderr[-4000:]}, found_input=False)
-        return False
+        ctx._pending_obligation = (
+            "translator could not re-extract model data from /repo (source shape changed): " + p.stderr[-2000:],
+            {"stage": "extract", "obligation": "tools/extract.py", "stderr": p.stderr[-4000:]})
     return True
 
 
